@@ -45,7 +45,11 @@ import (
 )
 
 func TestSim(t *testing.T) {
-	hysim.Main(t, &hysim.Harness{Name: "c13", Gen: c13Gen, Exec: c13Exec, Post: c13Post})
+	hysim.Main(t,
+		&hysim.Harness{Name: "c13", Gen: c13Gen, Exec: c13Exec, Post: c13Post},
+		// the same workload in a race-detector build (part c13race)
+		&hysim.Harness{Name: "c13race", Gen: c13Gen, Exec: c13Exec, Post: c13Post},
+	)
 }
 
 // One zero-length datagram is injected in 1 of c13ZeroRate runs (after every other oracle of the
